@@ -57,6 +57,14 @@ def fixed_cases(tier):
                     "triples": [[a, b, ["l", "collect"]] for a in range(n) for b in range(n)]})
     for spec in C.run_count_specs([16, 17, 64, 65, 128, 129, 255, 256, 257]):
         out.append({"spec": spec, "base": S.simple_config([]), "seed": 0, "triples": [[0, 1, ["l"]]]})
+    # run-length matrix: end points at the run boundaries
+    for spec in C.run_length_specs({(1, 64), (63, 64), (64, 64), (65, 64), (64, 1), (65, 65), (127, 128), (128, 128), (129, 63), (255, 1), (256, 63), (257, 65), (2, 128)}):
+        vals = [int(v["disc"]) for v in spec["variants"]]
+        n = len(vals)
+        cut = next(i for i in range(1, n) if vals[i] != vals[i - 1] + 1)
+        pts = sorted({0, 1, cut - 1, cut, cut + 1, n - 2, n - 1} & set(range(n)))
+        out.append({"spec": spec, "base": S.simple_config([]), "seed": 1,
+                    "triples": [[a, b, ["l", "collect"]] for a in pts for b in pts]})
     return out
 
 
